@@ -1,7 +1,7 @@
 #!/bin/sh
 # usage: prof.sh <full harness> <timeout-s> <slot>   -> /tmp/prof_<slot>.log + summary
 h=$1; t=${2:-600}; s=${3:-0}
-cd /repo && timeout $t env REPE_VERIF_KANI=/verif/kani CARGO_NET_OFFLINE=true cargo kani --lib -Z stubbing -Z unstable-options --features websocket,value-stream --target-dir /verif/.cache/kani-target/probe$s --exact --no-assertion-reach-checks --harness $h > /tmp/prof_$s.log 2>&1
+cd /repo && timeout $t env REPE_VERIF_KANI=${VERIF_KANI_DIR:-/verif/kani} CARGO_NET_OFFLINE=true cargo kani --lib -Z stubbing -Z unstable-options --features websocket,value-stream --target-dir /verif/.cache/kani-target/probe$s --exact --no-assertion-reach-checks $PROF_EXTRA --harness $h > /tmp/prof_$s.log 2>&1
 echo "=== $h rc=$?" > /tmp/prof_$s.sum
 grep -E "Runtime Symex|Runtime Solver|Generated|VERIFICATION|Verification Time|size of program" /tmp/prof_$s.log | head -8 >> /tmp/prof_$s.sum
 grep -E "Unwinding" /tmp/prof_$s.log | awk '{print $2,$3}' | sort | uniq -c | sort -rn | head -8 | cut -c1-200 >> /tmp/prof_$s.sum
